@@ -49,6 +49,15 @@ PROPS = {
         assumptions=ASSUME_WB + ["'no write' is observed through mtimes: every file is aged to a fixed past instant before each call"],
         stages=[dict(name="update", run="^TestC04_", quick=600, thorough=5000, shards_quick=4, shards_thorough=16)],
     ),
+    "C10": dict(
+        rule="case = 1-2 well-formed files rendered by the reference renderer (0-25 entries: per test live ordinals 1..n plus stale ordinals beyond, natural-order traps like T2/T10, "
+             "random order, bodies with blank/terminator-like/header-like lines), mode (default/clean/true/CI/other) x sort on/off. A process replays every live entry through MatchSnapshot, "
+             "then Clean runs. Oracles: survivors = exact multiset of (id, body); order non-decreasing under an independent natural comparator when sorting (total-order ids); relative order kept otherwise; "
+             "no write when nothing to prune/sort (mtime); second Clean is a no-op; a second initial permutation sorts to identical bytes. "
+             "non-trivial = >= 3 entries and (unsorted with sort on, or stale entry with deletion on, or special body lines); distinct = distinct canonical JSON",
+        assumptions=ASSUME_WB + ["ids with zero-padded digit runs (natural order not total) are only checked for content preservation, not for order"],
+        stages=[dict(name="clean_rewrite", run="^TestC10_", quick=500, thorough=5000, shards_quick=4, shards_thorough=16)],
+    ),
     "C13": dict(
         rule="cases are ordered pairs of texts (+ colour flag): exhaustive over line sequences of a 3-letter alphabet, "
              "random pairs from the hostile line alphabet related by 1-3 edits, and large texts (>10 / >=200 lines with popular lines). "
